@@ -5,6 +5,7 @@ import copy as _copy
 import itertools
 import json
 import operator
+import pickle
 import random
 import re
 import warnings
@@ -22,7 +23,10 @@ MANIFEST = dict(
               'separation, and the census rows themselves) + five fail-closed ast translators with a semantic normalisation '
               'pre-pass (copy census with source fields and flows through the constructor specialised to the call, export '
               'reads, Keyvalues +/+= append sites, math.py operator write/return origins, collapse_one write/enter/copy '
-              'sites) + oracle search incl. a boundary-value probe of every scalar field',
+              'sites; conditional copy expressions classified branch by branch, the weaker row re-computed in the kernel; '
+              'copy.deepcopy / pickle of Keyvalues censused through the generic copy protocol) + oracle search incl. a '
+              'boundary-value probe of every scalar field and an empty-container probe of every container field; every call '
+              'into the implementation under a deadline (a hang or an unexpected exception is a failing input)',
     text='Theorems in Props/C09.v (no axioms). Independence: in a heap of mutable/immutable nodes, if no mutable location '
          'is reachable both from object a and from the roots a mutator holds, no sequence of stores/allocations through '
          'those roots changes the unfolding (export) of a, and vice versa; a certificate checker for finite heaps is sound '
@@ -43,24 +47,37 @@ MANIFEST = dict(
          'at a stabilised depth: c09_mobs_eq_decided); both on one heap + the census obligations = the whole property for '
          'that real pair inside the kernel (c09_real_copy_complete_and_independent). Keyvalues + / +=: pure, complete and every '
          'appended child a fresh copy iff the receiver and the copied-flag of each append site (one per branch) are right. '
+         'Conditional rows (c09_cond_row_fresh_iff, c09_cond_rows_checked): a field built by `A if t else B` / `x and B` / '
+         'an if/else gets the weaker of the two branch rows, which is fresh iff both branches are; shared-when-empty is '
+         'complete yet not independent (c09_shared_when_empty_refuted). Typed nodes (c09_typed_nodes_checked, '
+         'c09_labels_of_a_class_same_mask): the census label of every exported node is derived in the kernel from its '
+         'run-time type name and the attribute names read are validated against the census. '
+         'Pickling pair of Output (c09_pickle_state_roundtrip): __getstate__ / __setstate__ read off the source position by '
+         'position; same field at every position, none twice, all data fields present => every field comes back with its '
+         'own value (the choice of the short form is only searched). '
          'Operators: a run none of whose stores is tagged with an operand origin leaves every pre-existing object '
          'unchanged and returns only new objects; in-place operators leave everything separated from the receiver '
          'unchanged. Instancing: a collapse_one run with no template-tagged store or stored value leaves the template '
          'unchanged. Tie (every run): translators regenerate the five Gen tables from vmf.py, keyvalues.py, math.py, '
-         'instancing.py; 128 named instance obligations (per census label: copy_covers_fields, copy_fresh_mutables, '
-         'copy_sources_match, copy_args_lossless, copy_export_equal, export_reads_are_fields; per kv branch; per operator '
-         'family; collapse_*; table level incl. all_classes_complete_and_independent); census vs run-time identities, '
+         'instancing.py; 144 named instance obligations (per census label — 19 labels incl. Keyvalues_deepcopy / _pickle: '
+         'copy_covers_fields, copy_fresh_mutables, copy_sources_match, copy_args_lossless, copy_export_equal, '
+         'export_reads_are_fields; per kv branch; per operator family; collapse_*; table level incl. '
+         'all_classes_complete_and_independent, conditional_rows_are_joins, census_labels_of_a_class_agree, pickle_state_*:Output); census vs run-time identities, '
          'argument flows vs the real constructors on boundary values, export reads vs traced attribute reads, operator '
          'rows vs real calls, kv model vs implementation; exported real object graphs certified in the kernel (separation; '
          'census rows: independence premises and completeness premises). Search: identity walk, export equality modulo IDs, random in-place mutation histories on either '
-         'side, boundary value of every scalar field then copy + export, instance collapse with proxies followed by edits '
+         'side, boundary value of every scalar field then copy + export (copy(), copy.copy, copy.deepcopy, pickle), every '
+         'container field emptied, copied, then filled on either side, instance collapse with proxies followed by edits '
          'of the target, operand snapshots for every operator.',
     note='Trusted: Coq kernel + vm_compute; the translators\' classification of Python expressions into census rows (each '
          'cross-checked dynamically: census_vs_runtime, flows_vs_runtime, export_reads_vs_runtime, op_census_vs_runtime, '
          'kv_add correspondence; the independence reading of the copy census is additionally decided in the kernel on '
          'sampled real heaps: certificate:census_rows_hold, and its completeness reading with the export masks of all '
-         'labelled nodes: certificate:export_rows_hold — the census label and the census-ordered field list of every '
-         'exported node come from checks/c09.py::export_rows_heap (trusted glue), the masks are computed in the kernel); the normalisation pre-pass of the copy translator (alias '
+         'labelled nodes: certificate:export_rows_hold — checks/c09.py::export_rows_heap only reports (location, type name, '
+         'attribute names read) per node; label, field order, arity and masks are derived / validated in the kernel: '
+         'certificate:typed_nodes_validated; trusted there: type(o).__name__, getattr, the walker); CPython\'s generic copy '
+         'protocol for a slot class without hooks (Keyvalues_deepcopy / _pickle rows; decided on real heaps by the row '
+         'certificates); the normalisation pre-pass of the copy translator (alias '
          'locals, loop-append = comprehension, single-return helpers inlined, guard clause = if/else ...: each rewrite is '
          'exact by construction, unknown shapes stay fail-closed); the flow modes as value functions (flow_fun); '
          'and the reading of a census row as its heap meaning (how_sem / how_complete / tstep / cstep: '
@@ -75,7 +92,7 @@ MANIFEST = dict(
 )
 
 IMPORTS = ['Coq.Lists.List', 'Coq.Bool.Bool', 'Coq.ZArith.ZArith', 'Coq.Strings.String', 'SV.SM.Store', 'SV.SM.StoreCert',
-           'SV.SM.StoreCopy', 'SV.SM.StoreCopySrc', 'SV.SM.StoreCopyExport', 'SV.SM.StoreCopyFlow', 'SV.SM.StoreCopyWholeProofs', 'SV.SM.StoreRowCert', 'SV.SM.StoreExportCert', 'SV.SM.KvAdd', 'SV.SM.KvAddFresh',
+           'SV.SM.StoreCopy', 'SV.SM.StoreCopySrc', 'SV.SM.StoreCopyExport', 'SV.SM.StoreCopyFlow', 'SV.SM.StoreCopyWholeProofs', 'SV.SM.StoreRowCert', 'SV.SM.StoreExportCert', 'SV.SM.StoreTypedLabels', 'SV.SM.StoreCondRow', 'SV.SM.StorePickleState', 'SV.SM.KvAdd', 'SV.SM.KvAddFresh',
            'SV.SM.OpPurity', 'SV.SM.CollapseCensus', 'SV.Gen.CopyCensus_gen', 'SV.Gen.CopyExportReads_gen',
            'SV.Gen.C09OpCensus_gen', 'SV.Gen.C09Collapse_gen', 'SV.Props.C09']
 CORPUS = hc.VERIF / 'corpus' / 'C09'
@@ -108,6 +125,66 @@ def _merge_known() -> None:
     hc.load_known = load
 
 
+# ------------------------------------------------------------------------------------------------ calls into the implementation
+class ImplHang(Exception):
+    """A call into the implementation did not come back within its deadline (a fault made it loop)."""
+
+
+class deadline:
+    """`with deadline(s):` — raises ImplHang inside the block after s seconds of wall time (SIGALRM; only in the main
+    thread of a process, which is where every search of this check runs — pool workers are processes).  The deadlines
+    are >= 50x the time the block takes on a loaded machine (a copy / empty-container / kv case: < 0.3 s, deadline 20 s; a
+    boundary case: < 1 s, 60 s; an instance case: < 0.5 s, 30 s; the operator sweep: 1-3 s, 180 s); after the first hang
+    a search stops (circuit breaker) so that the check still ends promptly; a deadline that fires is reported as a failing input
+    (key `hang:...`) with a replay, never as an internal error."""
+
+    def __init__(self, seconds: int) -> None:
+        self.seconds = seconds
+        self.armed = False
+
+    def _fire(self, _sig: int, _frm: Any) -> None:
+        raise ImplHang(f'no result after {self.seconds} s')
+
+    def __enter__(self) -> 'deadline':
+        import signal
+        import threading
+        if threading.current_thread() is threading.main_thread() and hasattr(signal, 'SIGALRM'):
+            import time
+            self.old = signal.signal(signal.SIGALRM, self._fire)
+            self.prev = signal.alarm(self.seconds)        # remaining seconds of an enclosing deadline (0: none)
+            self.t0 = time.monotonic()
+            self.armed = True
+        return self
+
+    def __exit__(self, *exc: Any) -> None:
+        import signal
+        if self.armed:
+            import time
+            signal.alarm(0)
+            signal.signal(signal.SIGALRM, self.old)
+            if self.prev:
+                signal.alarm(max(1, self.prev - int(time.monotonic() - self.t0)))
+
+
+def phase(ck: Ck, name: str, fn: Any, *args: Any) -> None:
+    """Run one certificate / correspondence phase (they call copy(), export and the operators directly) under a deadline
+    of 900 s quick / 3600 s thorough (the phases take 2-30 s quick, < 250 s thorough on a machine with load average 60-90):
+    an implementation call that does not return ends as a failed
+    obligation that the searches (which have per-case deadlines) then explain with a `hang:` input."""
+    try:
+        with deadline(3600 if ck.thorough else 900):
+            fn(ck, *args)
+    except ImplHang as e:
+        ck.obligation(f'phase:{name}', False, f'a call into the implementation (or coqc) did not return: {e}')
+        ck.tie_broken.append(f'phase {name} did not finish')
+    except Exception as e:       # copy() / export / an operator raised on a generated object
+        import traceback
+        where = traceback.extract_tb(e.__traceback__)[-1]
+        ck.obligation(f'phase:{name}', False, f'a call into the implementation raised {type(e).__name__}: {e} '
+                                              f'(at {Path(where.filename).name}:{where.lineno} in {where.name})')
+        ck.tie_broken.append(f'phase {name}: the implementation raised {type(e).__name__}')
+
+
 # ------------------------------------------------------------------------------------------------ one copy case
 def norm_path(p: str) -> str:
     p = re.sub(r'\[\d+\]', '[]', p)
@@ -128,7 +205,18 @@ def where_key(where: str) -> str:
 
 def run_copy_case(kind: str, case_seed: int, variant: str, n_mut: int, collect: dict | None = None) -> list[dict]:
     """Generate an object, copy it, check identity separation, completeness, and independence under a random
-    mutation history applied to one side.  Returns a list of problems (dicts with key/what/detail)."""
+    mutation history applied to one side.  Returns a list of problems (dicts with key/what/detail).  An exception
+    raised by copy() / export of a generated object, or a call that does not return, is a problem like any other."""
+    try:
+        with deadline(20):
+            return _run_copy_case(kind, case_seed, variant, n_mut, collect)
+    except ImplHang as e:
+        return [{'key': f'hang:{kind}', 'what': f'{kind}.{variant}: copy / export / mutation did not return ({e})', 'detail': []}]
+    except Exception as e:      # export of a generated / legally mutated object raised
+        return [{'key': f'raised:{kind}:{type(e).__name__}', 'what': f'{kind}.{variant}: {type(e).__name__}: {e}', 'detail': []}]
+
+
+def _run_copy_case(kind: str, case_seed: int, variant: str, n_mut: int, collect: dict | None = None) -> list[dict]:
     from harness import c09_util as U
     r = random.Random(case_seed)
     vmf, other = U.VMF(), U.VMF()
@@ -136,9 +224,16 @@ def run_copy_case(kind: str, case_seed: int, variant: str, n_mut: int, collect: 
     fn, complete = U.copy_variants(kind)[variant]
     problems: list[dict] = []
     before = U.observe(obj)
-    with warnings.catch_warnings():
-        warnings.simplefilter('ignore')
-        cp = fn(obj, other)
+    try:
+        with warnings.catch_warnings():
+            warnings.simplefilter('ignore')
+            cp = fn(obj, other)
+            U.observe(cp)
+    except ImplHang:
+        raise
+    except Exception as e:
+        return [{'key': f'copy-raised:{kind}:{type(e).__name__}',
+                 'what': f'{kind}.{variant} of a generated object (which exports fine) raised {type(e).__name__}: {e}', 'detail': []}]
     # copying must not change the original
     if U.observe(obj) != before:
         problems.append({'key': f'copy-changes-original:{kind}', 'what': f'{kind}.{variant} changed the export of the original',
@@ -153,7 +248,7 @@ def run_copy_case(kind: str, case_seed: int, variant: str, n_mut: int, collect: 
         oa, ob = U.observe(obj, True), U.observe(cp, True)
         if oa != ob:
             where, la, lb = U.first_diff(oa, ob)
-            problems.append({'key': f'copy-incomplete:{kind}:{"output-line" if kind == "Output" else where_key(where)}',
+            problems.append({'key': f'copy-incomplete:{kind}:{"output-line" if kind == "Output" else "tree" if kind == "Keyvalues" else where_key(where)}',
                              'what': f'{kind}.{variant}: export of the copy differs from the original at {where}: {la!r} vs {lb!r}',
                              'detail': [where, la, lb]})
     if collect is not None:
@@ -181,7 +276,7 @@ def run_copy_case(kind: str, case_seed: int, variant: str, n_mut: int, collect: 
         if now != snap:
             where, la, lb = U.first_diff(snap, now)
             mk = re.sub(r'\[\d+\]|\d+', '', desc.split(':')[0] if ':' in desc else desc)
-            problems.append({'key': f'mutation-visible:{kind}:{where_key(where)}',
+            problems.append({'key': f'mutation-visible:{kind}:{"tree" if kind == "Keyvalues" else where_key(where)}',
                              'what': f'{kind}.{variant}: mutating the {"original" if which == 0 else "copy"} ({desc}) changed the export of the '
                                      f'{"copy" if which == 0 else "original"} at {where}: {la!r} -> {lb!r}',
                              'detail': {'history': list(hist), 'mutation': mk}})
@@ -189,9 +284,16 @@ def run_copy_case(kind: str, case_seed: int, variant: str, n_mut: int, collect: 
     return problems
 
 
+_HANG: Any = None       # multiprocessing.Event shared with the pool workers (fork): set by the first case that hangs
+
+
 def _copy_job(job: tuple) -> tuple[list[dict], int]:
+    if _HANG is not None and _HANG.is_set():
+        return [], 0         # circuit breaker: one hanging case is a failing input; do not wait for a thousand of them
     info: dict = {}
     probs = run_copy_case(job[0], job[1], job[2], job[3], info)
+    if _HANG is not None and any((p.get('key') or '').startswith('hang:') for p in probs):
+        _HANG.set()
     return probs, info.get('size', 0)
 
 
@@ -200,6 +302,11 @@ def _run_copy_cases(jobs: list[tuple]) -> list[tuple[list[dict], int]]:
     in job order (deterministic).  Falls back to the serial loop if no pool can be started."""
     import multiprocessing as mp
     import os
+    global _HANG
+    try:
+        _HANG = mp.get_context('fork').Event()
+    except (OSError, ValueError):
+        _HANG = None
     workers = max(1, min(4, (os.cpu_count() or 2) // 2))
     if workers > 1 and len(jobs) >= 200:
         try:
@@ -207,12 +314,18 @@ def _run_copy_cases(jobs: list[tuple]) -> list[tuple[list[dict], int]]:
                 return pool.map(_copy_job, jobs, chunksize=max(1, len(jobs) // (workers * 8)))
         except (OSError, ValueError):
             pass
-    return [_copy_job(j) for j in jobs]
+    out = []
+    hung = False
+    for j in jobs:
+        res = ([], 0) if hung else _copy_job(j)
+        hung = hung or any((p.get('key') or '').startswith('hang:') for p in res[0])
+        out.append(res)
+    return out
 
 
 def search_copies(ck: Ck) -> None:
     from harness import c09_util as U
-    n = _budget(ck, 1300, 40000)
+    n = _budget(ck, 1000, 30000)
     cases: list[tuple[str, int, str]] = []
     if CORPUS.exists():
         for p in sorted(CORPUS.glob('*.json')):
@@ -246,7 +359,7 @@ def search_copies(ck: Ck) -> None:
 
 
 # ------------------------------------------------------------------------------------------------ boundary values of scalar fields
-BOUNDARY = {str: ['', '0', ' '], int: [0, 1, -1, 2, 7], float: [0.0, 0.25, -3.5], bool: [False, True]}
+BOUNDARY = {str: ['', '0', ' '], int: [0, 1, -1, 2, 7], float: [0.0, -0.0, 0.25, -3.5], bool: [False, True]}
 
 
 def _optional_scalar(o: Any, f: str) -> type | None:
@@ -288,6 +401,14 @@ def boundary_values(o: Any, f: str, val: Any) -> list | None:
 
 
 def run_boundary_case(kind: str, case_seed: int, variant: str) -> list[dict]:
+    try:
+        with deadline(60):
+            return _run_boundary_case(kind, case_seed, variant)
+    except ImplHang as e:
+        return [{'key': f'hang:{kind}', 'what': f'{kind}.{variant} with a boundary value did not return ({e})', 'detail': [], 'n_fields': 0}]
+
+
+def _run_boundary_case(kind: str, case_seed: int, variant: str) -> list[dict]:
     """One scalar field at a time: every str/int/float/bool data field of every map object reachable from a generated
     object is set to each boundary value of its type (falsy values, the values a constructor flag would map to, a value
     no editor writes), the object is copied, and the copy must export like the (edited) original.  This is the input
@@ -313,7 +434,7 @@ def run_boundary_case(kind: str, case_seed: int, variant: str) -> list[dict]:
             todo.append((o, f, val, path))
     for o, f, val, path in todo:
         for b in boundary_values(o, f, val) or []:
-            if b == val and type(b) is type(val):
+            if b == val and type(b) is type(val) and repr(b) == repr(val):
                 continue
             try:
                 setattr(o, f, b)
@@ -325,6 +446,8 @@ def run_boundary_case(kind: str, case_seed: int, variant: str) -> list[dict]:
                     oa = U.observe(obj, True)
                     cp = fn(obj, other)
                     ob = U.observe(cp, True)
+            except ImplHang:
+                raise
             except Exception:
                 continue        # not a state the object can be in (export or copy of the ORIGINAL fails): not a copy defect
             finally:
@@ -340,6 +463,151 @@ def run_boundary_case(kind: str, case_seed: int, variant: str) -> list[dict]:
     return problems
 
 
+# ------------------------------------------------------------------------------------------------ empty containers
+def _container_ops(c: Any):
+    """(take out every element in place -> saved, put them back in place) for a mutable container, or None."""
+    from harness import c09_util as U
+    if isinstance(c, dict):
+        return (lambda: (list(c.items()), c.clear())[0]), (lambda saved: c.update(saved))
+    if isinstance(c, set):
+        return (lambda: (list(c), c.clear())[0]), (lambda saved: c.update(saved))
+    if isinstance(c, list):
+        return (lambda: (list(c), c.clear())[0]), (lambda saved: c.extend(saved))
+    if isinstance(c, U.Array):
+        def take() -> list:
+            saved = list(c)
+            del c[:]
+            return saved
+        return take, (lambda saved: c.extend(saved))
+    return None
+
+
+def run_empty_case(kind: str, case_seed: int, variant: str) -> list[dict]:
+    """One container field at a time: every list / dict / set / array field of every map object reachable from a
+    generated object is EMPTIED in place (the falsy boundary value of a container: `x and ...`, `if x:`, `x or default`
+    treat it like an absent one), the object is copied, and then
+      * the copy must export like the (edited) original                       (copy-incomplete:...),
+      * no mutable object — in particular not the empty container itself — may be shared   (shared-mutable:...),
+      * the original's container is FILLED again after the copy and the copy must not change   (mutation-visible:...),
+      * the copy's container at the same place is filled and the original must not change.
+    States the original cannot be in (its own export raises) are skipped; a copy() that raises on a state the
+    original exports fine is a problem."""
+    try:
+        with deadline(20):
+            return _run_empty_case(kind, case_seed, variant)
+    except ImplHang as e:
+        return [{'key': f'hang:{kind}', 'what': f'{kind}.{variant} with an emptied container did not return ({e})', 'detail': []}]
+
+
+def _run_empty_case(kind: str, case_seed: int, variant: str) -> list[dict]:
+    from harness import c09_util as U
+    r = random.Random(case_seed)
+    vmf, other = U.VMF(), U.VMF()
+    obj = U.generate(kind, r, vmf)
+    fn, complete = U.copy_variants(kind)[variant]
+    problems: list[dict] = []
+    todo = []
+    done: set[tuple[str, str]] = set()
+    for o, path in sorted(U.walk(obj).values(), key=lambda x: (len(x[1]), x[1])):
+        if not type(o).__module__.startswith('srctools.') or type(o).__module__ == 'srctools.math':
+            continue
+        for lab, val in U.children(o):
+            if not lab.startswith('.') or _container_ops(val) is None or (type(o).__name__, lab) in done:
+                continue
+            done.add((type(o).__name__, lab))
+            todo.append((o, lab[1:], val, path))
+    n_done = 0
+    for o, f, c, path in todo:
+        take, put = _container_ops(c)      # type: ignore[misc]
+        saved = take()
+        try:
+            with warnings.catch_warnings():
+                warnings.simplefilter('ignore')
+                try:
+                    oa = U.observe(obj, True)
+                except ImplHang:
+                    raise
+                except Exception:
+                    continue          # not a state the original can be in
+                try:
+                    cp = fn(obj, other)
+                    ob = U.observe(cp, True)
+                except ImplHang:
+                    raise
+                except Exception as e:
+                    problems.append({'key': f'copy-raised:{kind}:{type(e).__name__}',
+                                     'what': f'{kind}.{variant} with {norm_path(path)}.{f} emptied (the original exports fine) raised '
+                                             f'{type(e).__name__}: {e}', 'detail': [norm_path(path), f], 'n_fields': len(todo)})
+                    continue
+                n_done += 1
+                where_f = f'{type(o).__name__}.{f}'
+                if complete and oa != ob:
+                    where, la, lb = U.first_diff(oa, ob)
+                    problems.append({'key': f'copy-incomplete:{kind}:{"output-line" if kind == "Output" else "tree" if kind == "Keyvalues" else where_key(where)}',
+                                     'what': f'{kind}.{variant} with {norm_path(path)}.{f} EMPTY: export of the copy differs from the '
+                                             f'original at {where}: {la!r} vs {lb!r}', 'detail': [norm_path(path), f, where, la, lb]})
+                for pa, pb, tn in U.shared_mutables(obj, cp):
+                    problems.append({'key': f'shared-mutable:{kind}:{norm_path(pa)}',
+                                     'what': f'{kind}.{variant} with {norm_path(path)}.{f} EMPTY: the mutable {tn} at {pa} is the same '
+                                             f'object in original and copy ({pb})', 'detail': [pa, pb, tn, where_f]})
+                # the copy's container at the same place
+                tail = path[len(type(obj).__name__):] + '.' + f
+                cc = next((x for x, px in U.walk(cp).values() if px[len(type(cp).__name__):] == tail), None)
+                snap_o = U.observe(obj)
+                snap_c = U.observe(cp)
+                put(saved)                      # fill the ORIGINAL's container after the copy
+                saved_back = True
+                if U.observe(cp) != snap_c:
+                    where, la, lb = U.first_diff(snap_c, U.observe(cp))
+                    problems.append({'key': f'mutation-visible:{kind}:empty-{where_f}',
+                                     'what': f'{kind}.{variant}: {norm_path(path)}.{f} was EMPTY when the copy was made; filling it in the '
+                                             f'original afterwards changed the export of the copy at {where}: {la!r} -> {lb!r}',
+                                     'detail': [norm_path(path), f, where, la, lb]})
+                elif cc is not None and cc is not c and _container_ops(cc) is not None and type(cc) is type(c):
+                    snap_o = U.observe(obj)
+                    _container_ops(cc)[1](saved)    # type: ignore[index]   # fill the COPY's container
+                    if U.observe(obj) != snap_o:
+                        where, la, lb = U.first_diff(snap_o, U.observe(obj))
+                        problems.append({'key': f'mutation-visible:{kind}:empty-{where_f}',
+                                         'what': f'{kind}.{variant}: {norm_path(path)}.{f} was EMPTY when the copy was made; filling it in '
+                                                 f'the copy afterwards changed the export of the original at {where}: {la!r} -> {lb!r}',
+                                         'detail': [norm_path(path), f, where, la, lb]})
+                saved = None
+        finally:
+            if saved is not None:
+                put(saved)
+    if not problems:
+        problems.append({'key': None})
+    problems[0]['n_fields'] = n_done
+    return problems
+
+
+def search_empty(ck: Ck) -> None:
+    from harness import c09_util as U
+    n = _budget(ck, 130, 2000)
+    found: dict[str, tuple[dict, tuple]] = {}
+    for i in range(n):
+        kind = U.KINDS[i % len(U.KINDS)]
+        seed = ck.rng.randrange(1 << 30)
+        variant = ck.rng.choice(sorted(U.copy_variants(kind)))
+        probs = run_empty_case(kind, seed, variant)
+        if any((p.get('key') or '').startswith('hang:') for p in probs):
+            found.setdefault(probs[0]['key'], (probs[0], (kind, seed, variant)))
+            break
+        nf = probs[0].get('n_fields', 0) if probs else 0
+        ck.count('empty_container_cases')
+        ck.count('empty_container_fields', nf)
+        ck.hist('empty_container_kind', kind)
+        if nf:
+            ck.seen(('empty', kind, seed, variant))
+        for p in probs:
+            if p.get('key'):
+                found.setdefault(p['key'], (p, (kind, seed, variant)))
+    for key, (p, (kind, seed, variant)) in sorted(found.items()):
+        ck.violation(key, p['what'], {'empty_container': True, 'kind': kind, 'case_seed': seed, 'variant': variant, 'detail': p['detail'],
+                                      'how': 'checks.c09.run_empty_case(kind, case_seed, variant)'})
+
+
 def search_boundary(ck: Ck) -> None:
     from harness import c09_util as U
     n = _budget(ck, 110, 1500)
@@ -347,8 +615,17 @@ def search_boundary(ck: Ck) -> None:
     for i in range(n):
         kind = U.KINDS[i % len(U.KINDS)]
         seed = ck.rng.randrange(1 << 30)
-        variant = ck.rng.choice(sorted(v for v, (_f, c) in U.copy_variants(kind).items() if c))
+        complete = sorted(v for v, (_f, c) in U.copy_variants(kind).items() if c)
+        variant = ck.rng.choice(complete)
         probs = run_boundary_case(kind, seed, variant)
+        if kind == 'Output':       # small objects, four ways of copying them (copy(), copy.copy, copy.deepcopy, pickle): try all
+            for v2 in complete:
+                if v2 != variant:
+                    extra = [dict(p, variant=v2) for p in run_boundary_case(kind, seed, v2) if p.get('key')]
+                    probs = probs + extra
+        if any((p.get('key') or '').startswith('hang:') for p in probs):
+            found.setdefault(probs[0]['key'], (probs[0], (kind, seed, variant)))
+            break
         nf = probs[0].get('n_fields', 0) if probs else 0
         ck.count('boundary_cases')
         ck.count('boundary_field_edits', nf)
@@ -357,7 +634,7 @@ def search_boundary(ck: Ck) -> None:
             ck.seen(('boundary', kind, seed, variant))
         for p in probs:
             if p.get('key'):
-                found.setdefault(p['key'], (p, (kind, seed, variant)))
+                found.setdefault(p['key'], (p, (kind, seed, p.get('variant', variant))))
     for key, (p, (kind, seed, variant)) in sorted(found.items()):
         ck.violation(key, p['what'], {'boundary': True, 'kind': kind, 'case_seed': seed, 'variant': variant, 'detail': p['detail'],
                                       'how': 'checks.c09.run_boundary_case(kind, case_seed, variant)'})
@@ -426,19 +703,20 @@ def cert_cases(ck: Ck) -> None:
     ck.extra['certificate_rejected'] = [list(m) for m in bad][:20]
 
 
-def export_rows_heap(a: Any, b: Any, ta: Any, tb: Any, label: str, side: dict, eside: dict) -> tuple:
+def export_rows_heap(a: Any, b: Any, ta: Any, tb: Any, side: dict) -> tuple:
     """The object graphs of a (original) and b (copy) as a finite heap for the two census certificates: like
-    c09_util.export_heap, but every object whose class has a census (the two objects the census `label` speaks about —
-    ta inside a, tb inside b — and every nested Solid / Side / DispVertex / Output / Keyvalues ...) gets its fields in
-    CENSUS order and is returned with its census LABEL (the kernel computes the export mask of the node from the
-    generated tables: `masks_of_labels` in Props/C09.v).  Returns nodes, the OLD locations (a's graph), the locations of
-    ta and tb, the reach set of tb (new-set certificate), the (location, label) list and a comparison depth (height of
-    the graph + 1)."""
+    c09_util.export_heap, but for every object whose TYPE NAME is a class of the census table the fields are the
+    attributes named by that class's census, in census order, and the node is reported as a TYPED NODE
+    (location, type(o).__name__, the attribute names read).  Nothing is decided here: the kernel derives the census
+    label from the type name (`label_of_type class_of_label`), checks that the names read are the census's field names in
+    census order and that the node has that many fields (`typed_nodes_ok`), and computes the export mask
+    (`masks_of_typed` in Props/C09.v).  Objects of any other type are plain nodes (all children, fully observed — the
+    strict reading).  Returns nodes, the OLD locations (a's graph), the locations of ta and tb, the reach set of tb
+    (new-set certificate), the typed nodes and a comparison depth (height of the graph + 1)."""
     from harness import c09_util as U
-    census, class_of = side['census'], side.get('class_of', {})
-    label_of_class: dict[str, str] = {}
+    names_of_type: dict[str, list[str]] = {}       # type name -> attribute names to read (validated in the kernel)
     for lab in side.get('classes', []):
-        label_of_class.setdefault(class_of.get(lab, lab), lab)
+        names_of_type.setdefault(side.get('class_of', {}).get(lab, lab), [r[0] for r in side['census'][lab]])
 
     wa, wb = U.walk(a), U.walk(b)
     locs: dict[int, int] = {}
@@ -449,12 +727,12 @@ def export_rows_heap(a: Any, b: Any, ta: Any, tb: Any, label: str, side: dict, e
                 locs[i] = len(locs) + 1
                 objs.append(o)
     atoms: dict[str, int] = {}
-    nodes, masks = [], []
+    nodes, typed = [], []
     for o in objs:
-        lab = label if (o is ta or o is tb) else label_of_class.get(type(o).__name__)
-        if lab is not None and type(o).__name__ == class_of.get(lab, lab):
-            kids = [('.' + r[0], getattr(o, r[0])) for r in census[lab]]
-            masks.append((locs[id(o)], lab))
+        names = names_of_type.get(type(o).__name__)
+        if names is not None:
+            kids = [('.' + n, getattr(o, n)) for n in names]
+            typed.append((locs[id(o)], type(o).__name__, names))
         else:
             kids = U.children(o)
             if isinstance(o, U.Array):
@@ -478,7 +756,7 @@ def export_rows_heap(a: Any, b: Any, ta: Any, tb: Any, label: str, side: dict, e
         memo[l] = 1 + max([height(k, stack + (l,)) for k in kids_of.get(l, [])] or [0])
         return memo[l]
     depth = min(64, max(height(locs[id(ta)]), height(locs[id(tb)])) + 1)
-    return nodes, [locs[i] for i in wa], locs[id(ta)], locs[id(tb)], [locs[i] for i in U.walk(tb)], masks, depth
+    return nodes, [locs[i] for i in wa], locs[id(ta)], locs[id(tb)], [locs[i] for i in U.walk(tb)], typed, depth
 
 
 def cert_rows(ck: Ck, side: dict, eside: dict) -> None:
@@ -501,6 +779,8 @@ def cert_rows(ck: Ck, side: dict, eside: dict) -> None:
         'EntityFixup_copy_values': ('EntityFixup', lambda o: U.EntityFixup(o.copy_values())),
         'EntityFixup_copy': ('EntityFixup', lambda o: _copy.copy(o)),
         'EntityFixup_deepcopy': ('EntityFixup', lambda o: _copy.deepcopy(o)),
+        'Keyvalues_deepcopy': ('Keyvalues', lambda o: _copy.deepcopy(o)),
+        'Keyvalues_pickle': ('Keyvalues', lambda o: pickle.loads(pickle.dumps(o))),
     }
     for k in ('Camera', 'Cordon', 'VisGroup', 'Solid', 'UVAxis', 'Side', 'Entity', 'EntityGroup', 'Output', 'Keyvalues'):
         makers[k] = (k, lambda o: o.copy())
@@ -543,17 +823,19 @@ def cert_rows(ck: Ck, side: dict, eside: dict) -> None:
                     no_probe.append(lab)
                     break
             try:
-                nodes, old, la, lc, sb, masks, depth = export_rows_heap(o, c, ta, tb, lab, side, eside)
+                nodes, old, la, lc, sb, typed, depth = export_rows_heap(o, c, ta, tb, side)
             except AttributeError:
                 continue
             if len(nodes) > 700:
                 continue
             lit = coq_list(f'({loc}%positive, Node {"true" if m else "false"} {coq_list(fld(f) for f in fs)})' for loc, m, fs in nodes)
-            ml = '(masks_of_labels ' + coq_list(f'({loc}%positive, "{mlab}"%string)' for loc, mlab in masks) + ')'
-            exprs.append(f'let L := {lit} in let O := {pl(old)} in '
+            tl = coq_list('(%d%%positive, "%s"%%string, %s)' % (loc, tname, coq_list(f'"{x}"%string' for x in names))
+                          for loc, tname, names in typed)
+            exprs.append(f'let L := {lit} in let O := {pl(old)} in let T := {tl} in '
                          f'(row_cert_ok L O {la}%positive {lc}%positive {pl(sb)} census_{lab} sources_{lab}, '
-                         f'export_cert_ok L O {la}%positive {lc}%positive {ml} {depth} census_{lab} sources_{lab} '
-                         f'export_reads_{class_of.get(lab, lab)})')
+                         f'(typed_nodes_ok all_census class_of_label L T, '
+                         f'export_cert_ok L O {la}%positive {lc}%positive (masks_of_typed T) {depth} census_{lab} sources_{lab} '
+                         f'export_reads_{class_of.get(lab, lab)}))')
             meta.append((lab, seed, len(nodes), depth))
             got += 1
             ck.count('row_certificate_cases')
@@ -574,7 +856,14 @@ def cert_rows(ck: Ck, side: dict, eside: dict) -> None:
         return
     flat = [v.replace(' ', '').replace('\n', '') for v in vals]
     bad_rows = [m for m, v in zip(meta, flat) if not v.startswith('(true,')]
-    bad_exp = [m for m, v in zip(meta, flat) if not v.endswith(',true)')]
+    bad_exp = [m for m, v in zip(meta, flat) if not v.endswith(',true))')]
+    bad_typed = [m for m, v in zip(meta, flat) if ',(true,' not in v]
+    ck.obligation('certificate:typed_nodes_validated', not bad_typed,
+                  f'the same {len(exprs)} heaps: for every node whose run-time type name is a class of the census table the kernel '
+                  f'finds the census label from the type name, and the attribute names the harness read are that census\'s field '
+                  f'names in census order (node arity checked), for {len(exprs) - len(bad_typed)}; rejected: {bad_typed[:6]}')
+    if bad_typed:
+        ck.tie_broken.append('typed nodes of an exported heap rejected by the kernel: ' + repr(bad_typed[:4]))
     ck.obligation('certificate:census_rows_hold', not bad_rows and not no_probe,
                   f'{len(exprs)} exported (original, copy) heaps over {len(census) - len(no_probe)} census labels: the kernel decides that '
                   f'every field of the copy is related to its source field as the generated census row says and that the '
@@ -622,6 +911,8 @@ def corr_census_runtime(ck: Ck, side: dict, unfresh: tuple = ()) -> None:
         'EntityFixup_copy_values': ('EntityFixup', lambda o, m: U.EntityFixup(o.copy_values())),
         'EntityFixup_copy': ('EntityFixup', lambda o, m: _copy.copy(o)),
         'EntityFixup_deepcopy': ('EntityFixup', lambda o, m: _copy.deepcopy(o)),
+        'Keyvalues_deepcopy': ('Keyvalues', lambda o, m: _copy.deepcopy(o)),
+        'Keyvalues_pickle': ('Keyvalues', lambda o, m: pickle.loads(pickle.dumps(o))),
     }
     for k in ('Camera', 'Cordon', 'VisGroup', 'Solid', 'UVAxis', 'Side', 'Entity', 'EntityGroup', 'Output', 'Keyvalues'):
         makers[k] = (k, lambda o, m: o.copy())
@@ -667,6 +958,10 @@ def corr_census_runtime(ck: Ck, side: dict, unfresh: tuple = ()) -> None:
                 ck.hist('census_runtime', f'{how}->{rt}')
                 seen_fields.add((lab, f))
                 ok_rt = set(CONSISTENT[how])
+                if f in side.get('conditional', {}).get(lab, []):
+                    # the row is the WEAKER of the two branches of a conditional (`copies if test else self.f`): on the
+                    # inputs that take the other branch the field is better than the row says
+                    ok_rt |= {'share', 'shallow', 'deep', 'imm-same'}
                 if how == 'HDeep' and unfresh:
                     # HDeep = "the nested copy() / constructor census decides"; when one of those censuses itself
                     # fails copy_fresh_mutables the census as a whole SAYS that mutables are shared below this field
@@ -699,6 +994,8 @@ def corr_flows_runtime(ck: Ck, side: dict) -> None:
     makers: dict[str, tuple[str, Any]] = {
         'EntityFixup_copy': ('EntityFixup', lambda o: _copy.copy(o)),
         'EntityFixup_deepcopy': ('EntityFixup', lambda o: _copy.deepcopy(o)),
+        'Keyvalues_deepcopy': ('Keyvalues', lambda o: _copy.deepcopy(o)),
+        'Keyvalues_pickle': ('Keyvalues', lambda o: pickle.loads(pickle.dumps(o))),
     }
     for k in ('Camera', 'Cordon', 'VisGroup', 'Solid', 'UVAxis', 'Side', 'Entity', 'EntityGroup', 'Output', 'Keyvalues'):
         makers[k] = (k, lambda o: o.copy())
@@ -813,6 +1110,14 @@ def operand_expr(x: Any) -> str:
 
 
 def search_operators(ck: Ck) -> None:
+    try:
+        with deadline(180):
+            _search_operators(ck)
+    except ImplHang as e:
+        ck.violation('hang:operators', f'an operator of math.py did not return ({e})', {'how': 'checks.c09.search_operators'})
+
+
+def _search_operators(ck: Ck) -> None:
     from harness.c09_util import bits
     from srctools.math import Angle, FrozenAngle, FrozenMatrix, FrozenVec, Matrix, Vec
     r = ck.rng
@@ -829,6 +1134,9 @@ def search_operators(ck: Ck) -> None:
     unops = {'neg': operator.neg, 'pos': operator.pos, 'abs': abs, 'round': round, 'bool': bool, 'str': str, 'repr': repr,
              'hash': lambda x: hash(x) if type(x).__name__.startswith('Frozen') else None, 'iter': lambda x: list(x) if hasattr(x, '__iter__') else None,
              'copy': lambda x: x.copy() if hasattr(x, 'copy') else None,
+             # the generic copy entry points (__copy__ / __deepcopy__ / __reduce__ of the six classes)
+             'copy.copy': lambda x: _copy.copy(x), 'copy.deepcopy': lambda x: _copy.deepcopy(x),
+             'pickle': lambda x: pickle.loads(pickle.dumps(x)),
              'transpose': lambda x: x.transpose() if hasattr(x, 'transpose') else None,
              'inverse': lambda x: x.inverse() if hasattr(x, 'inverse') else None,
              'to_angle': lambda x: x.to_angle() if hasattr(x, 'to_angle') else None,
@@ -851,6 +1159,13 @@ def search_operators(ck: Ck) -> None:
                         res = fn(a, b)
                 except (TypeError, ZeroDivisionError, ValueError, NotImplementedError):
                     res = None
+                except ImplHang:
+                    raise
+                except Exception as e:       # no operator of math.py raises anything else on these operands
+                    res = None
+                    ck.violation(f'operator-raised:{type(a).__name__}{name}{type(b).__name__}:{type(e).__name__}',
+                                 f'{type(a).__name__} {name} {type(b).__name__} raised {type(e).__name__}: {e}',
+                                 {'op': name, 'a_expr': ea, 'b_expr': eb, 'how': 'a = eval(a_expr); b = eval(b_expr); a <op> b'})
                 ck.count('operator_applications')
                 ck.hist('operator', name)
                 ta, tb = type(a).__name__, type(b).__name__
@@ -875,6 +1190,12 @@ def search_operators(ck: Ck) -> None:
                         res = fn(a)
                 except (TypeError, ZeroDivisionError, ValueError, ArithmeticError):
                     res = None
+                except ImplHang:
+                    raise
+                except Exception as e:
+                    res = None
+                    ck.violation(f'operator-raised:{name}({type(a).__name__}):{type(e).__name__}',
+                                 f'{name}({type(a).__name__}) raised {type(e).__name__}: {e}', {'op': name, 'a': repr(a)})
                 ck.count('operator_applications')
                 if bits(a) != sa:
                     ck.violation(f'operand-changed:{name}({type(a).__name__})', f'{name} changed its operand',
@@ -882,6 +1203,10 @@ def search_operators(ck: Ck) -> None:
                 elif res is a and not type(a).__name__.startswith('Frozen') and name not in ('pos',):
                     ck.violation(f'operator-returns-operand:{name}({type(a).__name__})',
                                  f'{name} returned its mutable operand itself', {'op': name, 'a': repr(a)})
+                elif name in ('copy', 'copy.copy', 'copy.deepcopy', 'pickle') and res is not None and bits(res) != sa:
+                    ck.violation(f'copy-incomplete:{type(a).__name__}:{name}',
+                                 f'{name}({type(a).__name__}) is not bit-identical to its operand (same class, same components)',
+                                 {'op': name, 'a': repr(a), 'result': repr(res)})
 
 
 def corr_op_census(ck: Ck, oside: dict) -> None:
@@ -961,6 +1286,17 @@ def kv_names(kv) -> list[str]:
 
 
 def run_kv_add(case_seed: int) -> list[dict]:
+    try:
+        with deadline(20):
+            return _run_kv_add(case_seed)
+    except ImplHang as e:
+        return [{'key': 'hang:kv-add', 'what': f'Keyvalues + / += / extend or a mutation after it did not return ({e})', 'detail': []}]
+    except Exception as e:
+        return [{'key': f'kv-raised:{type(e).__name__}', 'what': f'Keyvalues + / += / extend on generated trees raised {type(e).__name__}: {e}',
+                 'detail': []}]
+
+
+def _run_kv_add(case_seed: int) -> list[dict]:
     from harness import c09_util as U
     from srctools.keyvalues import Keyvalues
     r = random.Random(case_seed)
@@ -1037,8 +1373,11 @@ def search_kv_add(ck: Ck) -> None:
     found: dict[str, tuple[dict, int]] = {}
     seeds = [ck.rng.randrange(1 << 30) for _ in range(n)]
     for s in seeds:
-        for p in run_kv_add(s):
+        probs = run_kv_add(s)
+        for p in probs:
             found.setdefault(p['key'], (p, s))
+        if any(p['key'].startswith('hang:') for p in probs):
+            break
         ck.count('kv_add_cases')
         ck.seen(('kvadd', s))
     for key, (p, s) in sorted(found.items()):
@@ -1105,6 +1444,16 @@ Definition model (c : (bool * bool) * (list nat * list nat)) : list nat * list n
 
 # ------------------------------------------------------------------------------------------------ instancing
 def run_instance_case(case_seed: int) -> list[dict]:
+    try:
+        with deadline(30):
+            return _run_instance_case(case_seed)
+    except ImplHang as e:
+        return [{'key': 'hang:instance-collapse', 'what': f'collapse_one / export / an edit of the target did not return ({e})', 'detail': []}]
+    except Exception as e:
+        return [{'key': f'instance-raised:{type(e).__name__}', 'what': f'instance case raised {type(e).__name__}: {e}', 'detail': []}]
+
+
+def _run_instance_case(case_seed: int) -> list[dict]:
     """Collapse an instance twice into a map; the template map must export exactly as before, and the first
     collapsed copy must not change when the second is made."""
     from harness import c09_util as U
@@ -1215,8 +1564,11 @@ def search_instancing(ck: Ck) -> None:
     found: dict[str, tuple[dict, int]] = {}
     for _ in range(n):
         s = ck.rng.randrange(1 << 30)
-        for p in run_instance_case(s):
+        probs = run_instance_case(s)
+        for p in probs:
             found.setdefault(p['key'], (p, s))
+        if any(p['key'].startswith('hang:') for p in probs):
+            break
         ck.count('instance_collapse_cases')
         ck.seen(('inst', s))
     for key, (p, s) in sorted(found.items()):
@@ -1238,6 +1590,8 @@ def run(ck: Ck) -> None:
                'read traces of generated objects of every kind; boundary cases: every str/int/float/bool/Optional/flag/enum/Vec4 '
                'data field of every map object reachable from a generated object set to each boundary value of its type '
                '(falsy values, the values a constructor flag maps to, values no editor writes), then copied and exported; '
+               'empty-container cases: every list/dict/set/array field of every reachable map object emptied in place, the '
+               'object copied, the container filled again on either side; '
                'row certificates: (census label, generator seed) heaps of original + copy decided in the kernel against the '
                'generated census; distinct by full case tuple')
     ck.trusted.append('harness/c09_util.py object-graph walker (slots, __dict__, containers); the VMF back pointer is context')
@@ -1251,6 +1605,9 @@ def run(ck: Ck) -> None:
     ck.assumptions.append('argument flows: a flow mode means its value function (flow_fun: ident/presence = the value, ordefault = the '
                           'value when truthy, guard/derived = anything); the specialisation of the constructor to the call is '
                           'compared with the real constructor by flows_vs_runtime on boundary values')
+    ck.assumptions.append('copy.deepcopy / pickle of a slot class that defines none of the copy-protocol hooks (Keyvalues today: checked '
+                          'by the translator, fail-closed) builds a new object and fills every slot with a deep copy / the unpickled '
+                          'value of the original slot (CPython copyreg); the resulting rows are decided on real heaps by the row certificates')
     ck.assumptions.append('export is a function of the data fields it reads (export_reads census, static over-approximation '
                           'of the traced reads); IDs and the map back pointer are masked in the export comparison')
     ck.assumptions.append('the map back pointer (Entity.map, Solid.map, Side.map, VisGroup.vmf ...) is context: mutations '
@@ -1314,6 +1671,14 @@ def run(ck: Ck) -> None:
         obs['all_sources_present'] = 'Nat.eqb (List.length all_sources) %d && all_sources_match' % len(side.get('classes', []))
         obs['all_flows_present'] = 'Nat.eqb (List.length all_flows) %d && all_args_lossless' % len(side.get('classes', []))
         obs['all_classes_present'] = 'Nat.eqb (List.length all_census) %d' % len(side.get('classes', []))
+        # premise of c09_pickle_state_roundtrip: __getstate__ / __setstate__ of Output agree position by position, cover every field
+        obs['pickle_state_positions_match:Output'] = 'state_ok (names census_Output) output_state_put output_state_get'
+        obs['pickle_state_short_form_matches:Output'] = ('state_short_ok output_state_put_short output_state_get_short '
+                                                         'output_state_put output_state_get')
+        # premise of c09_cond_rows_checked: every conditional row is the join (weaker) of its two branch rows
+        obs['conditional_rows_are_joins'] = 'cond_rows_ok all_census cond_rows && Nat.eqb (List.length cond_rows) %d' % len(side.get('cond_rows', []))
+        # premise of c09_labels_of_a_class_same_mask: the census label of an exported node may be derived from its type name
+        obs['census_labels_of_a_class_agree'] = 'labels_agree all_census class_of_label'
         # premise of c09_all_classes_complete_and_independent (the whole property for every copy method of the table)
         obs['all_classes_complete_and_independent'] = 'all_fresh && all_sources_match && all_export_ok'
         res = ck.instance_obligations(IMPORTS, obs)
@@ -1342,19 +1707,22 @@ def run(ck: Ck) -> None:
                 ck.extra['census_sources_of_offending_classes'] = {
                     c: side.get('sources', {}).get(c) for c in side.get('classes', []) if not res.get(f'copy_sources_match:{c}', True)}
         lap('instance_obligations')
-        cert_cases(ck)
-        cert_rows(ck, side, eside)
+        phase(ck, 'cert_cases', cert_cases)
+        phase(ck, 'cert_rows', cert_rows, side, eside)
         lap('certificates')
-        corr_census_runtime(ck, side, tuple(k for k, v in res.items() if k.startswith('copy_fresh_mutables:') and not v))
-        corr_flows_runtime(ck, side)
-        corr_export_reads(ck, side, eside)
-        corr_kv_add(ck, side)
-        corr_op_census(ck, oside)
+        phase(ck, 'census_vs_runtime', corr_census_runtime, side,
+              tuple(k for k, v in res.items() if k.startswith('copy_fresh_mutables:') and not v))
+        phase(ck, 'flows_vs_runtime', corr_flows_runtime, side)
+        phase(ck, 'export_reads_vs_runtime', corr_export_reads, side, eside)
+        phase(ck, 'kv_add', corr_kv_add, side)
+        phase(ck, 'op_census_vs_runtime', corr_op_census, oside)
         lap('correspondences')
     search_copies(ck)
     lap('search_copies')
     search_boundary(ck)
     lap('search_boundary')
+    search_empty(ck)
+    lap('search_empty')
     search_kv_add(ck)
     lap('search_kv_add')
     search_operators(ck)
@@ -1382,14 +1750,22 @@ def run(ck: Ck) -> None:
     if any_key('kv-iadd-', 'kv-+=', 'kv-extend'):
         ck.explain('instance:kv_iadd_appends_to_self')
     if any_key('kv-'):
+        ck.explain('correspondence:kv_add')
         ck.explain('instance:kv_added_items_are_copied')
         for b in ('kv_add_single', 'kv_add_iter', 'kv_iadd_single', 'kv_iadd_iter'):
             ck.explain(f'instance:{b}_branch_appends_copy')
+    if any_key('copy-incomplete:Output:', 'copy-raised:Output:'):
+        ck.explain('instance:pickle_state_')
     if any_key('copy-incomplete:'):
         ck.explain('correspondence:flows_vs_runtime')
         ck.explain('instance:all_sources_present')
         ck.explain('instance:all_flows_present')
         ck.explain('instance:all_classes_export_ok')
+    if any_key('hang:', 'copy-raised:', 'raised:', 'kv-raised:', 'instance-raised:', 'instance-collapse-raised:', 'operator-raised:'):
+        ck.explain('phase:')
+        # a translator that failed closed on a loop / statement it does not know, while the search shows that the code in
+        # front of it does not return or raises: the failing input is the explanation
+        ck.explain('translate:CopyCensus_gen')
     if any_key('shared-mutable:', 'mutation-visible:'):
         ck.explain('certificate:export_ok')
     if any_key('shared-mutable:', 'mutation-visible:', 'copy-incomplete:'):
@@ -1410,6 +1786,11 @@ def run(ck: Ck) -> None:
 
 def replay(data: dict) -> int:
     r = data['replay']
+    if r.get('empty_container'):
+        for p in run_empty_case(r['kind'], r['case_seed'], r['variant']):
+            if p.get('key'):
+                print(p['key'], '--', p['what'])
+        return 0
     if r.get('boundary'):
         for p in run_boundary_case(r['kind'], r['case_seed'], r['variant']):
             if p.get('key'):
